@@ -6,7 +6,7 @@ from hypothesis import strategies as st
 from hypothesis.stateful import RuleBasedStateMachine, rule, invariant, precondition, initialize
 
 from ..runner import Violation, unexpected, digest
-from ..ref import wire as W, hashes as H
+from ..ref import wire as W, hashes as H, sighash as RS
 from .. import libx, gen
 
 from bitcoin.core import (CTransaction, CMutableTransaction, CTxIn, CMutableTxIn, CTxOut, CMutableTxOut, COutPoint,
@@ -213,10 +213,14 @@ class World:
             i = op[2] % len(t.vin)
             try:
                 if k == 'sighash':
-                    RawSignatureHash(CScript([OP_1, OP_CODESEPARATOR, OP_1]), t, i, op[3])
+                    got = RawSignatureHash(CScript([OP_1, OP_CODESEPARATOR, OP_1]), t, i, op[3])[0]
                     SignatureHash(CScript([OP_1, OP_CODESEPARATOR]), t, i, op[3] if (op[3] & 0x1f) != 3 else 1)
+                    if got != RS.legacy(b'\x51\xab\x51', e['model'], i, op[3])[0]:
+                        raise Violation('sighash/not-current-fields', 'legacy signature hash of a pool transaction does not reflect its current fields')
                 elif k == 'bip143':
-                    SignatureHash(CScript([OP_1]), t, i, op[3], amount=5, sigversion=SIGVERSION_WITNESS_V0)
+                    got = SignatureHash(CScript([OP_1]), t, i, op[3], amount=5, sigversion=SIGVERSION_WITNESS_V0)
+                    if got != RS.bip143(b'\x51', e['model'], i, op[3], 5):
+                        raise Violation('bip143/not-current-fields', 'BIP143 signature hash of a pool transaction does not reflect its current fields')
                 else:
                     try:
                         VerifyScript(CScript([OP_1]), CScript([OP_DUP, b'\x02' + b'a' * 32, OP_CHECKSIG, OP_DROP]), t, i)
